@@ -138,6 +138,30 @@ pub fn run(ctx: &Ctx) -> Report {
             }
         }
     }
+    // n = 1..=64 attributes that are all acceptable (distinct comprehension-optional types, or distinct
+    // supported required types), with the required list naming the first / middle / last / every one of
+    // them (no error), and one absent type (400): a fixed-size table of "types seen" overflows at some n
+    let hexl = |l: &[u16]| -> String { crate::refimpl::crypto::hex(&l.iter().flat_map(|t| t.to_be_bytes()).collect::<Vec<u8>>()) };
+    for n in 1..=64usize {
+        for shape in 0..2u8 {
+            let types: Vec<u16> = (0..n).map(|i| if shape == 0 { 0x8100 + i as u16 } else { 0x0100 + i as u16 }).collect();
+            let mut b = wire::encode_header(0, 1, tid, 0);
+            for t in &types {
+                wire::append_raw(&mut b, *t, &[1]);
+            }
+            let mut with_fp = b.clone();
+            wire::append_fp(&mut with_fp);
+            let sup: Vec<u16> = if shape == 0 { vec![] } else { types.clone() };
+            let mut reqs: Vec<Vec<u16>> = vec![vec![types[0]], vec![types[n / 2]], vec![types[n - 1]], types.clone(), vec![types[n - 1], 0x8028], vec![0x7ABC], vec![types[n - 1], 0x7ABC]];
+            reqs.dedup();
+            for r in &reqs {
+                many.push(Case::new("police", with_fp.clone()).text(&[&hexl(&sup), &hexl(r)]));
+                if !r.contains(&0x8028) {
+                    many.push(Case::new("police", b.clone()).text(&[&hexl(&sup), &hexl(r)]));
+                }
+            }
+        }
+    }
     let acc_many = crate::props::sweep(many.into_par_iter(), judge);
     // the response constructors called directly: unknown_attributes(request, list) for lists of
     // 0..=400 types (distinct, repeated, optional types included) and bad_request(request)
@@ -162,7 +186,7 @@ pub fn run(ctx: &Ctx) -> Report {
     Report {
         acc,
         exhaustive: true,
-        rule: "request messages whose attribute lists are all sequences (duplicates included) up to the depth over {SOFTWARE, USERNAME, PRIORITY, 0x7F00, 0xFF00, MESSAGE-INTEGRITY, MESSAGE-INTEGRITY-SHA256, FINGERPRINT} that the reference decoder accepts x methods {0,1,0xFFF}; type universe of 9 (those 8 + USE-CANDIDATE, never present); per message: supported = any subset of the present types + none/all of the absent ones, required = any subset of the present types + none/one/all of the absent ones; for messages of <= 2 attributes (method 1) all 2^9 x 2^9 supported x required subsets; every third configuration repeated with reversed lists whose entries are duplicated; requests with n = 1..=400 unsupported comprehension-required attributes (distinct / one type repeated / optional / mixed); unknown_attributes(request, list) called directly with lists of 0..=400 and 1000 types (distinct / repeating / mixed) and bad_request(request), 3 methods; comprehension_required for all 65536 types; distinct_nontrivial = request messages".into(),
+        rule: "request messages whose attribute lists are all sequences (duplicates included) up to the depth over {SOFTWARE, USERNAME, PRIORITY, 0x7F00, 0xFF00, MESSAGE-INTEGRITY, MESSAGE-INTEGRITY-SHA256, FINGERPRINT} that the reference decoder accepts x methods {0,1,0xFFF}; type universe of 9 (those 8 + USE-CANDIDATE, never present); per message: supported = any subset of the present types + none/all of the absent ones, required = any subset of the present types + none/one/all of the absent ones; for messages of <= 2 attributes (method 1) all 2^9 x 2^9 supported x required subsets; every third configuration repeated with reversed lists whose entries are duplicated; requests with n = 1..=400 unsupported comprehension-required attributes (distinct / one type repeated / optional / mixed); requests with n = 1..=64 acceptable attributes and the required list naming the first / middle / last / all of them or an absent type; unknown_attributes(request, list) called directly with lists of 0..=400 and 1000 types (distinct / repeating / mixed) and bad_request(request), 3 methods; comprehension_required for all 65536 types; distinct_nontrivial = request messages".into(),
         bounds: json!({"messages": n_msgs, "depth": depth, "configurations_per_message": "<= 2^k * 2 * 2^k * 3 for k present universe types; 262144 for messages of <= 2 attributes"}),
         assumptions: vec!["UNKNOWN-ATTRIBUTES is compared modulo repeats (the statement does not say whether a type present twice is listed twice)".into()],
         ..Default::default()
@@ -200,15 +224,16 @@ pub fn judge(case: &Case, acc: &mut Acc) {
                 return;
             }
             acc.validated += 1;
-            let sup = subset(case.args[0]);
-            let req = subset(case.args[1]);
+            // lists given explicitly (text = [supported, required] as hex u16 lists) or as universe masks
+            let parse_list = |t: &str| -> Vec<u16> { crate::refimpl::crypto::unhex(t).chunks(2).map(|c| u16::from_be_bytes([c[0], c[1]])).collect() };
+            let (sup, req) = if case.text.len() == 2 { (parse_list(&case.text[0]), parse_list(&case.text[1])) } else { (subset(case.args[0]), subset(case.args[1])) };
             let want = police::verdict(&m, &sup, &req);
             let supt: Vec<AttributeType> = sup.iter().map(|t| AttributeType::new(*t)).collect();
             let reqt: Vec<AttributeType> = req.iter().map(|t| AttributeType::new(*t)).collect();
             let got = Message::check_attribute_types(&msg, &supt, &reqt);
             // the verdict is a function of the *sets*: reversed lists with every entry repeated
             // must give the same answer (compared as: none / bytes of the generated response)
-            if (case.args[0] + case.args[1]) % 3 == 0 {
+            if case.text.len() != 2 && (case.args[0] + case.args[1]) % 3 == 0 {
                 let mut sup2: Vec<AttributeType> = supt.iter().rev().copied().collect();
                 sup2.extend(supt.iter().copied());
                 let mut req2: Vec<AttributeType> = reqt.iter().rev().copied().collect();
